@@ -6,6 +6,8 @@ import evmref as R
 PID = "C15"
 NEEDS = ("analyze",)
 LEAN_TARGETS = ["EtkVerif.Props.C15"]
+PANIC_FILES = ["etk-asm/src/disasm.rs", "etk-dasm/src/blocks/annotated.rs", "etk-dasm/src/blocks/basic.rs", "etk-dasm/src/sym.rs",
+               "etk-analyze/src/cfg.rs", "etk-analyze/src/sym.rs", "etk-analyze/src/blocks/annotated.rs"]
 RULE = ("byte strings through the whole real pipeline (Disassembler -> Separator -> annotate -> ControlFlowGraph::new -> "
         "refine_shallow -> render): every opcode byte in first / middle / last block position and feeding a jump target and a "
         "branch condition; uniform random byte strings; structured programs; truncated pushes. Each request runs under "
